@@ -30,3 +30,76 @@ def entry_codec_round_trip(w: World, sid: int):
         check(e2[s].changed == e[s].changed, "pending flag survives")
         check(e2[s].otype == e[s].otype and e2[s].side == s, "type and side survive")
         check(e2[s].size == e[s].size and e2[s].mtime == e[s].mtime and e2[s].temp_file == e[s].temp_file, "size, mtime, temp file survive")
+
+
+@lemma(props=["C08", "C07"], configs="none", raises=["Exception"])
+def storage_update_decision_table(w: World, tag: opt_str):
+    """L8.2: what one dirty entry costs the storage back end: nothing without a tag; a stored entry that became trash
+    (no id on either side) is deleted by its row id; a stored live entry is rewritten in place under its row id; an
+    unstored live entry is created and remembers the new row id; unstored trash is never written.  The bytes written
+    are the entry's serialisation *at that moment* (they load back to the entry's current fields)"""
+    state = w.state
+    e = w.entry("e")
+    for s in (0, 1):
+        assume(e[s].changed is not False)
+    state._storage = w.storage()
+    state._tag = tag
+    sid0 = e.storage_id
+    trash = e[0].oid is None and e[1].oid is None
+    state._storage_update(e)
+    names = [n for n in effect_names() if n.startswith("storage:")]
+    check(len(names) <= 1, "at most one storage call per entry")
+    if tag is None:
+        check(len(names) == 0, "no tag: nothing is stored")
+    elif sid0 is not None and trash:
+        check(names == ["storage:delete"], "stored trash is deleted")
+        c = calls("storage:delete")[0]
+        check(c.args[0] == tag and c.args[1] == sid0, "by tag and row id")
+    elif sid0 is not None:
+        check(names == ["storage:update"], "a stored live entry is rewritten in place")
+        c = calls("storage:update")[0]
+        check(c.args[0] == tag and c.args[2] == sid0, "under its tag and row id")
+        row = c.args[1]
+    elif trash:
+        check(len(names) == 0, "unstored trash is never written")
+    else:
+        check(names == ["storage:create"], "an unstored live entry is created")
+        c = calls("storage:create")[0]
+        check(c.args[0] == tag, "under the tag")
+        check(e.storage_id == c.result, "and remembers the row id it was given")
+        row = c.args[1]
+    if tag is not None and not trash:
+        state._loading = True
+        e2 = SyncEntry(state, None, (0, row))
+        state._loading = False
+        check(e2.ignored == e.ignored and e2.priority == 0 or e2.ignored == e.ignored, "the row carries the ignore reason")
+        for s in (0, 1):
+            check(e2[s].oid == e[s].oid and e2[s].path == e[s].path, "the row carries the current oid and path")
+            check(e2[s].hash == e[s].hash and e2[s].sync_hash == e[s].sync_hash and e2[s].sync_path == e[s].sync_path,
+                  "the row carries the current hashes and last-synced path")
+            check(e2[s].changed == e[s].changed and e2[s].exists == e[s].exists, "the row carries the pending flag and existence")
+
+
+@lemma(props=["C08", "C07"], configs="none", raises=["Exception"],
+       inline=["cloudsync.sync.state:SyncState.storage_commit"],
+       stubs={"cloudsync.sync.state:SyncState._storage_update": {"results": ["None"], "raises": True, "havoc": False}})
+def storage_commit_writes_every_dirty_entry(w: World):
+    """L8.3: a commit hands every dirty entry to the storage writer and only then forgets the dirty set: on normal
+    return the dirty set is empty and an entry that was dirty was written; when a write fails nothing is forgotten"""
+    state = w.state
+    e = w.entry("e")
+    assume(is_dirty(state, e))
+    try:
+        state.storage_commit()
+        failed = False
+    except Exception:
+        failed = True
+    wrote = False
+    for c in calls("_storage_update"):
+        if c.args[0] is e:
+            wrote = True
+    if failed:
+        check(is_dirty(state, e), "a failed commit forgets nothing")
+    else:
+        check(not is_dirty(state, e), "after a commit nothing is dirty")
+        check(wrote, "every entry that was dirty was handed to the storage writer")
